@@ -2,6 +2,7 @@ SPECIFICATION Spec
 CONSTANTS
   Mode = "real"
   AtomSet <- NoAtoms
+  PairAtoms <- NoAtoms
   InnerAtoms <- NoAtoms
   PairOuter = FALSE
   Dump = TRUE
